@@ -24,9 +24,9 @@ Hypothesis fresh_not_sentinel : forall k, fresh k <> hard_exit_sentinel.
 
 (* the first row *)
 Lemma first_row_First cr s1 cls payloads dec0 :
-  r_type (cr_row cr) = TNode cls payloads dec0 -> cstep fresh cs0 cr = Ok s1 -> FirstOK s1.
+  r_type (cr_row cr) = TNode cls payloads dec0 -> cstep_read fresh cs0 cr = Ok s1 -> FirstOK s1.
 Proof.
-  intros Ht. unfold cstep. rewrite Ht.
+  intros Ht. unfold cstep_read. rewrite Ht.
   destruct (match _ with Some p => _ | None => _ end) as [acts n1].
   assert (Ex : match or_default (cr_uuid cr) (r_node_name (cr_row cr)) with [] => None | _ :: _ => alookup (cs_names cs0) (or_default (cr_uuid cr) (r_node_name (cr_row cr))) end = None)
     by (destruct (or_default _ _); reflexivity).
@@ -47,13 +47,13 @@ Proof.
 Qed.
 
 Lemma crun_First cr rest s cls payloads dec0 :
-  r_type (cr_row cr) = TNode cls payloads dec0 -> crun fresh (cr :: rest) = Ok s -> FirstOK s.
+  r_type (cr_row cr) = TNode cls payloads dec0 -> crun_read fresh (cr :: rest) = Ok s -> FirstOK s.
 Proof.
-  intros Ht. unfold crun. cbn. destruct (cstep fresh cs0 cr) as [s1|x] eqn:E; [|discriminate].
+  intros Ht. unfold crun_read. cbn. destruct (cstep_read fresh cs0 cr) as [s1|x] eqn:E; [|discriminate].
   pose proof (first_row_First cr s1 _ _ _ Ht E) as F1. clear E. revert s1 F1.
   induction rest as [|r rs IH]; intros s1 F1; cbn.
   - intros H. injection H as <-. exact F1.
-  - destruct (cstep fresh s1 r) as [s2|x] eqn:E; [|discriminate]. apply IH. eapply cstep_First; eauto.
+  - destruct (cstep_read fresh s1 r) as [s2|x] eqn:E; [|discriminate]. apply IH. eapply cstep_read_First; eauto.
 Qed.
 
 (* what _compile_flow builds, with the positions *)
@@ -69,6 +69,7 @@ Proof.
   destruct (mapM (cgnodes _ (cs_groups s)) root) as [ls|x] eqn:Em; [|discriminate].
   destruct (mapM _ (concat ls)) as [nds|x] eqn:En; [|discriminate].
   destruct (validate (map cn_uuid nds)) as [u|] eqn:Ev; [discriminate|].
+  destruct (forallb node_groups_named nds); [|discriminate].
   intros H. injection H as <-. exists nds, (concat ls). cbn. split; [reflexivity|]. split; [exact Ev|].
   pose proof (mapM_ok_Forall2 _ _ _ Em) as Fm. pose proof (mapM_ok_Forall2 _ _ _ En) as Fn. split; [|split].
   - eapply Forall2_impl; [|exact Fn]. intros i nd Hi. cbn in Hi. destruct (nth_error (cs_nodes s) i); [injection Hi as ->; reflexivity|discriminate].
@@ -99,15 +100,16 @@ Proof.
   - intros [-> | ->]; [constructor|apply ex_end, HK].
 Qed.
 
-Theorem compile_refines_rowsem_partial validate name rows f ref :
+(* the rows AS READ (padding entries dropped on both sides) *)
+Theorem compile_read_refines_rowsem_read validate name rows f ref :
   (forall us, validate us = None -> NoDup us) ->
   Forall row_ok rows -> no_given rows -> starts_with_node rows ->
-  compile_with fresh validate name rows = Ok f -> rowsem nab (map cr_row rows) = Some ref ->
+  compile_read_with fresh validate name rows = Ok f -> rowsem_read nab (map cr_row rows) = Some ref ->
   (forall t, traces ref t -> exists t', traces f t' /\ Forall2 (ematch sexp smatch) t t')
   /\ (forall t, traces f t -> exists t', traces ref t' /\ Forall2 (ematch sexp (fun a b => smatch b a)) t t').
 Proof.
-  intros Hv Hok Hng Hfirst. unfold compile_with, rowsem.
-  destruct (crun fresh rows) as [sc|x] eqn:Ec; [|discriminate].
+  intros Hv Hok Hng Hfirst. unfold compile_read_with, rowsem_read.
+  destruct (crun_read fresh rows) as [sc|x] eqn:Ec; [|discriminate].
   destruct (run_rows nab (map cr_row rows) st0 []) as [sr|] eqn:Er; [|discriminate].
   intros Hf Href. injection Href as <-.
   set (GP := fun _ : id => False).
@@ -116,7 +118,7 @@ Proof.
   unfold traces.
   destruct rows as [|cr0 rest].
   - (* the empty sheet: both flows are empty *)
-    cbn in Er. injection Er as <-. unfold crun in Ec. cbn in Ec. injection Ec as <-.
+    cbn in Er. injection Er as <-. unfold crun_read in Ec. cbn in Ec. injection Ec as <-.
     assert (HF0 : f_nodes f = []).
     { revert Hf. unfold cfinish_with. cbn. destruct (validate _); [discriminate|]. intros H. injection H as <-. reflexivity. }
     split; intros t Ht.
@@ -129,16 +131,16 @@ Proof.
   - (* the first row, then the others *)
     cbn in Hfirst. destruct (r_type (cr_row cr0)) as [cls payloads dec0| | | | | |] eqn:Et; try contradiction.
     pose proof (crun_First cr0 rest sc _ _ _ Et Ec) as HFirst.
-    cbn [map] in Er. rewrite run_rows_cons in Er. unfold crun in Ec. cbn [foldM] in Ec.
+    cbn [map] in Er. rewrite run_rows_cons in Er. unfold crun_read in Ec. cbn [foldM] in Ec.
     destruct (rstep st0 [] (cr_row cr0)) as [[s1 h1]|] eqn:Er1; [|discriminate].
-    destruct (cstep fresh cs0 cr0) as [c1|x] eqn:Ec1; [|discriminate].
+    destruct (cstep_read fresh cs0 cr0) as [c1|x] eqn:Ec1; [|discriminate].
     unfold rstep in Er1. rewrite Et in Er1. destruct (step_row nab st0 (cr_row cr0)) as [s1'|] eqn:Es1; [|discriminate]. injection Er1 as <- <-.
     inversion Hok as [|? ? Hcr0 Hrest]; subst.
     destruct (node_row_sim fresh fresh_inj fresh_not_sentinel GP GPns [] st0 cs0 cr0 cls payloads dec0 s1' c1
                            Sim_init (inv_st _ _ _ (Inv_cs0 fresh GP)) Hcr0 Et Es1 Ec1) as (phi1 & S1 & Hh1 & _ & Hk1).
     cbn in Hk1, Hh1.
     assert (Hinv1 : Inv fresh GP c1).
-    { eapply (cstep_ok fresh GP fresh_inj); [|apply Inv_cs0|exact Ec1]. intros Hne. exfalso. apply Hne, Hng. left. reflexivity. }
+    { eapply (cstep_read_ok fresh GP fresh_inj); [|apply Inv_cs0|exact Ec1]. intros Hne. exfalso. apply Hne, Hng. left. reflexivity. }
     destruct (run_sim fresh fresh_inj fresh_not_sentinel GP GPns rest phi1 s1' c1 [] sr sc Hrest
                       (fun cr Hin => Hgiven cr (or_intror Hin)) S1 Hinv1 Hh1 Er Ec) as (phi & Hsim & Hinv & _ & L2).
     destruct (cfinish_idx GP validate name sc f Hinv Hf) as (nds & idxs & HF & Hval & Hidx & Hcover & Hfst).
@@ -151,5 +153,47 @@ Proof.
     { eapply (Rel_node phi sr idxs f 0 n0 c0 0 0); eauto; [rewrite Ef0, Eidx; reflexivity|lia]. }
     destruct (rel_traces fresh GP phi sr sc Hsim (inv_st _ _ _ Hinv) nds idxs f HF Hidx Hcover Hnd (0, 0) (0, 0) Hrel) as [T1 T2].
     split; [exact T1|exact T2].
+Qed.
+
+(* ---------------------------------------------------------------- the rows as written *)
+Lemma crun_read_rows rows : crun fresh rows = crun_read fresh (map cread_row rows).
+Proof.
+  unfold crun, crun_read. generalize cs0. induction rows as [|cr r IH]; intros s; cbn; [reflexivity|].
+  unfold cstep at 1. destruct (cstep_read fresh s (cread_row cr)); [apply IH|reflexivity].
+Qed.
+
+Lemma compile_read_rows validate name rows : compile_with fresh validate name rows = compile_read_with fresh validate name (map cread_row rows).
+Proof. unfold compile_with, compile_read_with. rewrite crun_read_rows. reflexivity. Qed.
+
+Lemma reads_same_rows rows : Forall reads_same rows -> map cr_row (map cread_row rows) = map read_row (map cr_row rows).
+Proof.
+  induction 1 as [|cr r H _ IH]; cbn [map]; [reflexivity|]. rewrite IH.
+  assert (E : cr_row (cread_row cr) = read_row (cr_row cr)); [|rewrite E; reflexivity].
+  unfold cread_row, read_row. cbn [cr_row r_type r_id r_node_name r_edges]. unfold reads_same in H. rewrite H. reflexivity.
+Qed.
+
+Lemma row_ok_read cr : row_ok cr -> row_ok (cread_row cr).
+Proof.
+  intros [He Hr]. unfold row_ok, cread_row. cbn [cr_row cr_kind cr_uuid r_edges r_type r_node_name]. split; [|exact Hr].
+  unfold read_edges. destruct padding_edges_dropped_at_read; [|exact He].
+  unfold drop_padding. destruct (r_edges (cr_row cr)) as [|e0 rest]; [constructor|]. inversion He as [|? ? H0 Hrest]; subst.
+  constructor; [exact H0|]. rewrite Forall_forall in *. intros e Hin. apply filter_In in Hin as [Hin _]. auto.
+Qed.
+
+(* for every sheet of the fragment whose rows the code of this run reads as the reference does *)
+Theorem compile_refines_rowsem_partial validate name rows f ref :
+  (forall us, validate us = None -> NoDup us) ->
+  Forall row_ok rows -> Forall reads_same rows -> no_given rows -> starts_with_node rows ->
+  compile_with fresh validate name rows = Ok f -> rowsem nab (map cr_row rows) = Some ref ->
+  (forall t, traces ref t -> exists t', traces f t' /\ Forall2 (ematch sexp smatch) t t')
+  /\ (forall t, traces f t -> exists t', traces ref t' /\ Forall2 (ematch sexp (fun a b => smatch b a)) t t').
+Proof.
+  intros Hv Hok Hsame Hng Hfirst Hc Hr. rewrite compile_read_rows in Hc.
+  change (rowsem nab (map cr_row rows)) with (rowsem_read nab (map read_row (map cr_row rows))) in Hr.
+  rewrite <- (reads_same_rows rows Hsame) in Hr.
+  eapply (compile_read_refines_rowsem_read validate name (map cread_row rows)); eauto.
+  - apply Forall_forall. intros cr Hin. apply in_map_iff in Hin as (cr0 & <- & Hin0). apply row_ok_read. rewrite Forall_forall in Hok. auto.
+  - intros cr Hin. apply in_map_iff in Hin as (cr0 & <- & Hin0). unfold cread_row. cbn [cr_uuid]. apply Hng, Hin0.
+  - destruct rows as [|cr0 r]; [exact I|]. exact Hfirst.
 Qed.
 End Final.
